@@ -22,6 +22,10 @@ pub struct Case {
     /// indices into world.utxos, in the order they are handed to the library
     pub offered: Vec<usize>,
     pub hash_seeds: Vec<u64>,
+    /// non-zero: the UTxOs are handed over the way a wallet connector returns them - decoded from
+    /// another producer's CBOR (wide heads, indefinite containers, unsorted asset maps)
+    #[serde(default)]
+    pub decoded: u8,
 }
 
 pub struct C13;
@@ -108,7 +112,7 @@ fn gen(seed: u64, tier: Tier) -> Case {
     let target = if r.chance(1, 10) { AddrSpec::Byron(r.below(4) as u16) } else { sess::gen_key_addr(&mut r, 12, 0) };
     let kk = if tier == Tier::Thorough { 8 } else { 3 };
     let mut rh = Rng::stream(seed, 3);
-    Case { knobs: k, world: w, target, offered, hash_seeds: (0..kk).map(|_| rh.next()).collect() }
+    Case { knobs: k, world: w, target, offered, hash_seeds: (0..kk).map(|_| rh.next()).collect(), decoded: if rh.chance(1, 3) { 1 + rh.below(250) as u8 } else { 0 } }
 }
 
 fn run_once(c: &Case, hash_seed: u64, out: &mut Outcome) -> Option<Vec<Vec<(Vec<u8>, u64)>>> {
@@ -119,7 +123,23 @@ fn run_once(c: &Case, hash_seed: u64, out: &mut Outcome) -> Option<Vec<Vec<(Vec<
     let mut utxos = csl::TransactionUnspentOutputs::new();
     for i in &c.offered {
         if *i < w.utxos.len() {
-            utxos.add(&w.utxo(*i));
+            let plain = w.utxo(*i);
+            let mut decoded = None;
+            if c.decoded != 0 {
+                let mut r = Rng::new(mix(c.decoded as u64, *i as u64));
+                if r.chance(2, 3) {
+                    if let Ok(n) = crate::cbor::parse(&plain.to_bytes()) {
+                        let mut f = crate::cbor::Foreign::new(&mut r, 100, 200, 0, 300);
+                        let mut o = vec![];
+                        f.emit(&n, &mut o);
+                        decoded = csl::TransactionUnspentOutput::from_bytes(o).ok();
+                        if decoded.is_some() {
+                            out.count("fault.F8_utxos_decoded_from_foreign_bytes", 1);
+                        }
+                    }
+                }
+            }
+            utxos.add(&decoded.unwrap_or(plain));
         }
     }
     let target = w.address(&c.target);
